@@ -278,7 +278,7 @@ func c16UnitV(p *Program, bound, maxExecs int, verdictOnly bool) *Unit {
 			check(map[string]int{d.site: d.alt})
 		}
 		res.BoundCompleted = 1
-		if bound >= 2 {
+		if capBound(bound) >= 2 {
 		pairs:
 			for i, d1 := range devs {
 				if d1.alt > 2 {
